@@ -59,7 +59,7 @@ pub struct RMsg {
 }
 
 /// wall-clock backstop per job during the search (normal jobs take 0.3-50 ms); suspects are re-run alone with 200 s
-pub const WALL_SEARCH_S: u64 = 5;
+pub const WALL_SEARCH_S: u64 = 10;
 
 pub struct Worker {
     corpus: Vec<Program>,
